@@ -3,6 +3,11 @@
    output:  OK <cells..> SPEC <same | cells..> FULL <same | cells..> PREM <ok | failed>
           | RANGE | DUPKEY | NOTFOUND | ERR ..
      tree <nops> ops..   (abstract status structure driven directly) -> one result code per op
+     ctree <num_nodes> <nops> ops..   (the CONCRETE red-black tree model of Tree.v driven directly; ops as for
+          "tree" plus S = snapshot) -> one token per op:
+          I:<root> | D:<root>:<deleted> | NF | Q:<max> | QERR | STOP | S:<row>;<row>;..
+          row = id,key,max,red,left,right,parent,g0,g1,g2,a0,a1,a2 for NIL (-1), the dummy root (0)
+          and every row handed out by the idle stack so far
    libm's atan is handed to the model here (Stdlib.atan). *)
 open Model
 open Zio
@@ -41,4 +46,45 @@ let () = main_loop (fun op r ->
       | "Q" -> let k = next_f r in let a = next_f r in let g = next_f r in TQry (k, a, g)
       | t -> raise (Parse ("bad tree op " ^ t))) in
     String.concat " " (List.map string_of_z (tree_run [] ops))
+  | "ctree" ->
+    let nn = next_int r in
+    let n = next_int r in
+    let st = ref (fc_init (z_of_int nn)) in
+    let used = ref [] in
+    let toks = ref [] in
+    let row i =
+      let nd = fc_row !st (z_of_int i) in
+      let v = nd.t_val in
+      String.concat "," ([string_of_int i; str_f nd.t_key; str_f nd.t_max; (if nd.t_red then "1" else "0");
+                          string_of_z nd.t_left; string_of_z nd.t_right; string_of_z nd.t_parent]
+                         @ List.map str_f [v.ng0; v.ng1; v.ng2; v.na0; v.na1; v.na2]) in
+    for _ = 1 to n do
+      let t = next r in
+      if t = "S" then
+        toks := ("S:" ^ String.concat ";" (List.map row ((-1) :: 0 :: List.sort compare !used))) :: !toks
+      else begin
+        let o = match t with
+          | "I" -> let k = next_f r in
+            let g0 = next_f r in let g1 = next_f r in let g2 = next_f r in
+            let a0 = next_f r in let a1 = next_f r in let a2 = next_f r in
+            TIns (k, { ng0 = g0; ng1 = g1; ng2 = g2; na0 = a0; na1 = a1; na2 = a2 })
+          | "D" -> TDel (next_f r)
+          | "Q" -> let k = next_f r in let a = next_f r in let g = next_f r in TQry (k, a, g)
+          | t -> raise (Parse ("bad tree op " ^ t)) in
+        let top = (match !st.c_idle with id :: _ -> Some (int_of_z id) | [] -> None) in
+        let (res, s') = fc_step !st o in
+        st := s';
+        let tok = match res with
+          | RIns root ->
+            (match top with Some id -> if not (List.mem id !used) then used := id :: !used | None -> ());
+            "I:" ^ string_of_z root
+          | RDel (root, d) -> "D:" ^ string_of_z root ^ ":" ^ string_of_z d
+          | RNotFound -> "NF"
+          | RQry m -> "Q:" ^ str_f m
+          | RQErr -> "QERR"
+          | RStop -> "STOP" in
+        toks := tok :: !toks
+      end
+    done;
+    String.concat " " (List.rev !toks)
   | _ -> "ERR unknown-op " ^ op)
